@@ -275,3 +275,30 @@ def monomial_elements(inp):
         if m[i] != MPoly({MPoly.mono(names, e): Fraction(1)}):
             return f"element {i} is {m[i]!r}, expected monomial with exponent {e} over {names}"
     return None
+
+
+# ------------------------------------------------------------------ one dimension, large bounds (width of the internal index type)
+def gen_large_1d(tier, rng):
+    for lo, hi in [(250, 260), (65530, 65540), (65536, 65538), (70000, 70003)] + ([(255, 257), (65534, 65537), (131070, 131075)] if tier == "thorough" else []):
+        for fn in ("glexindex", "monomial", "bindex"):
+            yield {"start": lo, "stop": hi, "fn": fn}
+
+
+@check("C18", "glexindex.large_bounds_one_dimension", gen_large_1d, functions=("numpoly.glexindex", "numpoly.monomial", "numpoly.bindex"),
+       note="bounded: dimensions = 1 with stop at 260, 65540, 65538, 70003 (thorough: 3 more), a few below/above the 8- and 16-bit limits: "
+            "exactly the exponents start..stop-1, each once, in order")
+def large_bounds(inp):
+    import numpoly
+    lo, hi = inp["start"], inp["stop"]
+    want = list(range(lo, hi))
+    if inp["fn"] == "monomial":
+        m = numpoly.monomial(lo, hi, dimensions=1)
+        got = [int(e[0]) for e in m.exponents] if m.shape == (len(want),) else None
+        if got is not None:
+            got = [int(numpoly.lead_exponent(x)[0]) for x in m]
+    else:
+        r = getattr(numpoly, inp["fn"])(lo, hi, dimensions=1) if inp["fn"] == "glexindex" else numpoly.bindex(lo, hi, 1)
+        got = [int(v) for v in numpy.asarray(r).reshape(-1)]
+    if got != want:
+        return f"{inp['fn']}({lo}, {hi}, dimensions=1): {got} instead of {want}"
+    return None
